@@ -165,7 +165,7 @@ func (v Fix128Value) MeteredString(
 func (v Fix128Value) ToInt() int {
 	// TODO: Maybe compute this without the use of `big.Int`
 	fix128BigInt := v.ToBigInt()
-	integerPart := fix128BigInt.Div(fix128BigInt, sema.Fix128FactorIntBig)
+	integerPart := fix128BigInt.Quo(fix128BigInt, sema.Fix128FactorIntBig)
 
 	if !integerPart.IsInt64() {
 		panic(&OverflowError{})
@@ -650,7 +650,7 @@ func (v Fix128Value) IntegerPart() NumberValue {
 	// TODO: Maybe compute this without the use of `big.Int`.
 	fix128BigInt := v.ToBigInt()
 
-	integerPart := new(big.Int).Div(fix128BigInt, sema.Fix128FactorIntBig)
+	integerPart := new(big.Int).Quo(fix128BigInt, sema.Fix128FactorIntBig)
 
 	// The max length of the integer part is 128-bits.
 	// Therefore, return an `Int128`.
